@@ -452,4 +452,87 @@ def xMarkov1 (α : Type) [CNum α] (dsq : Bytes) (L K : Nat) (r : Rng) : SeqResu
   else if L ≤ 2 then (.ok dsq, r)
   else ofOpt ofCodesDigital (markov1 (α := α) K (digitalCodes dsq L) r)
 
+/-! ## 64-bit vector shuffles (`esl_vec_{D,F,I,L}Shuffle64`, generator `ESL_RAND64`) -/
+/-- `esl_rand64_Roll(rng, n)`: first accepted draw (fuel as for `roll`) -/
+def roll64 (r : Rng64) (n : Nat) : Nat × Rng64 :=
+  match r.roll n rollFuel with
+  | some p => p
+  | none => (0, r)
+
+/-- the Fisher–Yates skeleton over the 64-bit generator -/
+def fyLoop64 {σ : Type} (sw : σ → Nat → Nat → σ) (base : Nat) : Nat → σ → Rng64 → σ × Rng64
+  | n+2, s, r =>
+    let (i, r') := roll64 r (n+2)
+    fyLoop64 sw base (n+1) (sw s (base + i) (base + (n+2) - 1)) r'
+  | _, s, r => (s, r)
+
+/-- `esl_vec_{D,F,I,L}Shuffle64(rng, v, n)` -/
+def vecShuffle64 {α : Type} (v : Array α) (r : Rng64) : Array α × Rng64 :=
+  fyLoop64 (fun a i j => a.swapIfInBounds i j) 0 v.size v r
+
+/-! ## `esl_rsq_Sample`: random character strings from a `<ctype.h>` class (C locale, codes 0..127) -/
+def isDigitB (x : Nat) : Bool := 48 ≤ x && x ≤ 57
+def isUpperB (x : Nat) : Bool := 65 ≤ x && x ≤ 90
+def isLowerB (x : Nat) : Bool := 97 ≤ x && x ≤ 122
+def isSpaceB (x : Nat) : Bool := (9 ≤ x && x ≤ 13) || x == 32
+def isPrintB (x : Nat) : Bool := 32 ≤ x && x ≤ 126
+
+/-- membership of code `x` in the class selected by `eslRSQ_SAMPLE_*` flag `flag` (1..12); `none` = invalid flag -/
+def sampleClass (flag : Nat) : Option (Nat → Bool) :=
+  match flag with
+  | 1 => some fun x => isDigitB x || isUpperB x || isLowerB x                              -- ALNUM
+  | 2 => some fun x => isUpperB x || isLowerB x                                            -- ALPHA
+  | 3 => some isLowerB
+  | 4 => some isUpperB
+  | 5 => some isDigitB
+  | 6 => some fun x => isDigitB x || (65 ≤ x && x ≤ 70) || (97 ≤ x && x ≤ 102)            -- XDIGIT
+  | 7 => some fun x => x ≤ 31 || x == 127                                                  -- CNTRL
+  | 8 => some fun x => 33 ≤ x && x ≤ 126                                                   -- GRAPH
+  | 9 => some isSpaceB
+  | 10 => some fun x => x == 9 || x == 32                                                  -- BLANK
+  | 11 => some isPrintB
+  | 12 => some fun x => (33 ≤ x && x ≤ 126) && !(isDigitB x || isUpperB x || isLowerB x)   -- PUNCT
+  | _ => none
+
+/-- the table `c[0..n-1]` built by `for (x = 0; x < 128; x++) if (isxxx(x)) c[n++] = x;` -/
+def sampleTable (cls : Nat → Bool) : Array Nat := ((List.range 128).filter cls).toArray
+
+/-- `for (i = 0; i < L; i++) s[i] = c[esl_rnd_Roll(rng, n)];` -/
+def sampleLoop (c : Array Nat) : Nat → Rng → Array Nat → Array Nat × Rng
+  | 0, r, acc => (acc, r)
+  | L+1, r, acc => let (i, r') := roll r c.size; sampleLoop c L r' (acc.push (c.getD i 0))
+
+/-- `esl_rsq_Sample(rng, allowed_chars, L, &s)`; `none` = `eslEINVAL` (bad flag) -/
+def rsqSample (flag L : Nat) (r : Rng) : Option (Array Nat) × Rng :=
+  match sampleClass flag with
+  | none => (none, r)
+  | some cls => let (o, r') := sampleLoop (sampleTable cls) L r #[]; (some o, r')
+
+/-! ## `esl_rsq_SampleDirty` with `p == NULL`: the probability vector is sampled (binary64 only: uses `log`) -/
+/-- `esl_rnd_UniformPositive` as a double -/
+def uniformPositiveF (r : Rng) : Float × Rng :=
+  match r.uniformPositive rollFuel with
+  | some (x, r') => (Float.ofNat x / 4294967296.0, r')
+  | none => (0.0, r)
+
+/-- `esl_rnd_Dirichlet(rng, NULL, K, p)`: `p[i] = esl_rnd_Gamma(rng, 1.0) = -log(1.0 * UniformPositive)`, then `p[i] /= norm` -/
+def dirichletUniform (K : Nat) (r : Rng) : Array Float × Rng :=
+  let rec go : Nat → Rng → Array Float → Float → Array Float × Float × Rng
+    | 0, r, p, norm => (p, norm, r)
+    | n+1, r, p, norm =>
+      let (u, r') := uniformPositiveF r
+      let x := -(Float.log (1.0 * u))
+      go n r' (p.push x) (norm + x)
+  let (p, norm, r') := go K r #[] 0.0
+  (p.map (· / norm), r')
+
+/-- the vector built by `esl_rsq_SampleDirty` when none is provided: canonical residues scaled by `pc`, degenerate codes
+    `K+1..Kp-3` by `1-pc`, and exactly zero for gap `K`, nonresidue `Kp-2`, missing `Kp-1` -/
+def dirtyP (K Kp : Nat) (r : Rng) : Array Float × Rng :=
+  let (pcn, r) := r.randomNum
+  let pc := Float.ofNat pcn / 4294967296.0
+  let (p1, r) := dirichletUniform K r
+  let (p2, r) := dirichletUniform (Kp - K - 3) r
+  (p1.map (· * pc) ++ #[0.0] ++ p2.map (· * (1.0 - pc)) ++ #[0.0, 0.0], r)
+
 end EaselModel.Shuffle
